@@ -1,6 +1,7 @@
 package cyc
 
 import (
+	"fmt"
 	"os"
 	"strings"
 	"testing"
@@ -127,12 +128,51 @@ func biasC07() Bias {
 	return b
 }
 
+// genTailScenario: scale-down is on, nothing is unscraped, loaded shards in front whose targets are
+// settled (normal, healthy, >= 3 scrapes) and mostly do not fit elsewhere, expired idle shards at the
+// tail: the cycle both counts removable shards and looks for room to empty the last loaded one.
+func genTailScenario(t *rapid.T) *Scenario {
+	sc := &Scenario{Opt: Options{MaxProc: 1000, IdleOn: true, Max: 999999, DisableAlleviate: rapid.Bool().Draw(t, "disableAlleviate")}}
+	if rapid.Bool().Draw(t, "headLimit") {
+		sc.Opt.MaxHead = 1000
+	}
+	nLoaded := rapid.IntRange(1, 3).Draw(t, "loaded")
+	nTail := rapid.IntRange(1, 2).Draw(t, "tail")
+	sc.Opt.Min = int32(rapid.IntRange(0, 1).Draw(t, "min"))
+	rs := ReplicaSpec{}
+	hash := uint64(1)
+	for i := 0; i < nLoaded; i++ {
+		sp := ShardSpec{Ready: true, StatusOK: true, Runtime1OK: true, HashEqual: true, Push: "ok", Runtime2OK: true, Idle: "fresh"}
+		nT := rapid.IntRange(1, 3).Draw(t, fmt.Sprintf("s%d-targets", i))
+		for k := 0; k < nT; k++ {
+			size := int64(rapid.SampledFrom([]int{100, 300, 450, 600, 900}).Draw(t, fmt.Sprintf("s%d-t%d-size", i, k))) / int64(nT)
+			sc.Targets = append(sc.Targets, TargetSpec{Hash: hash, Job: "j0", Explore: "good", Series: size, Total: size})
+			sp.Held = append(sp.Held, Held{Hash: hash, Health: "up", Times: uint64(rapid.IntRange(3, 6).Draw(t, fmt.Sprintf("s%d-t%d-times", i, k))), Series: size, Total: size})
+			hash++
+		}
+		rs.Shards = append(rs.Shards, sp)
+	}
+	for i := 0; i < nTail; i++ {
+		sp := GenShardScript(t, 15, fmt.Sprintf("tail%d", i))
+		sp.Idle = rapid.SampledFrom([]string{"expired", "expired", "fresh"}).Draw(t, fmt.Sprintf("tail%d-idle", i))
+		rs.Shards = append(rs.Shards, sp)
+	}
+	sc.Replicas = []ReplicaSpec{rs}
+	sc.RandSeed = int64(rapid.IntRange(1, 1<<30).Draw(t, "randSeed"))
+	return sc
+}
+
 func TestC07(t *testing.T) {
 	rec := recC07()
 	rapid.Check(t, func(t *rapid.T) {
 		b := biasC07()
 		b.SmallSizes = rapid.Bool().Draw(t, "smallSizes")
-		sc := Gen(t, b)
+		var sc *Scenario
+		if rapid.IntRange(0, 4).Draw(t, "tailScenario") == 0 {
+			sc = genTailScenario(t)
+		} else {
+			sc = Gen(t, b)
+		}
 		if msg := Check(rec, "TestC07", sc, JudgeC07, Execs()); msg != "" {
 			t.Fatalf("%s", msg)
 		}
